@@ -280,6 +280,14 @@ static void mutate_bytes(std::vector<uint8_t>& b, Rng& r) {
 static void mutate_text(std::string& t, Rng& r) {
     static const char* toks[] = {"{", "}", "[", "]", ",", ":", "\"", "\\", "\\u", "\\ud83d", "\\ude00", "true", "false", "null", "1", "-", "0", ".", "e", "E+", " ", "\n", "\r", "\r\n", "\t", "/", "/*", "*/", "//", "1e400", "\xc3", "\xa9"};
     if (t.empty()) { t = r.pick(toks); return; }
+    // byte patterns the encoding/BOM detection of the source adaptors looks for, placed beyond the start of the text where they are
+    // ordinary content (U+FEFF inside a string) or ordinary garbage: every delivery must treat them like the one-shot parse does
+    if (t.size() >= 6 && r.chance(1, 8)) {
+        static const std::string enc[] = {"\xef\xbb\xbf", "\xef\xbb\xbf\xef\xbb\xbf", "\xff\xfe", "\xfe\xff", std::string("\0", 1), std::string("\0\0\0", 3), std::string("a\0", 2), std::string("\0\0\xfe\xff", 4), "\xef\xbb", "\xef"};
+        size_t n = 1 + r.below(3);
+        for (size_t i = 0; i < n; ++i) t.insert(4 + r.below(t.size() - 3), r.pick(enc));
+        return;
+    }
     switch (r.below(6)) {
     case 0: t.resize(r.below(t.size())); break;
     case 1: t[r.below(t.size())] = (char)r.below(128); break;
@@ -298,7 +306,8 @@ int main(int argc, char** argv) {
         "[123456789012345678901234567890,-0.000001e-10,1E+2,0,-0,1.5]", "\"\\ud83d\\ude00\\u00e9\\n\\\\\\\"\\/\"", "[true,false,null]", " \r\n\t[ \r\n1 \r\n, \r 2\n]\r\n ",
         "{\"a\":{\"b\":[1,{\"c\":null}]},\"a\":2}", "\"\xf0\x9f\x98\x80\xe2\x82\xac\xc3\xa9\"", "123", "-1.5e-3", "tru", "[1,]", "[1 2]", "{\"a\" 1}", "\"abc", "[\"\\u12", "nul", "1 2", "[] []", "{} x", "",
         "   ", "/* c */ [1, // x\n 2]", "[1e309, -1e309, 1e-400, 18446744073709551616, -9223372036854775809]", "\"\\ud83d\"", "\"\\ude00x\"", "[\"a\\",
-        "{\"k\":\"v\",\"k2\":[1,2,{\"x\":\"\\u0041\"}],\"k3\":{}}", "[[[[[[[[[[1]]]]]]]]]]"};
+        "{\"k\":\"v\",\"k2\":[1,2,{\"x\":\"\\u0041\"}],\"k3\":{}}", "[[[[[[[[[[1]]]]]]]]]]",
+        "[\"ab\xef\xbb\xbf" "cd\",1]", "{\"key\xef\xbb\xbf\":\"\xef\xbb\xbf\xef\xbb\xbfx\",\"b\":[\"\xef\xbb\xbf\"]}", "[1234,\"\xef\xbb\xbf\",5678,\"x\xef\xbb\xbfy\xef\xbb\xbfz\"]"};
     auto body = [&](long long c) {
         Rng r = H.case_rng(c);
         g_jopts = json_options();
@@ -318,6 +327,11 @@ int main(int argc, char** argv) {
             int nm = r.chance(1, 2) ? 0 : 1 + (int)r.below(3);
             for (int i = 0; i < nm; ++i) mutate_text(t, r);
             if (t.size() > 600) t.resize(600);
+            // encoding auto-detection territory (DESIGN §3): a BOM, or a NUL among the first four bytes, makes the reader-level entry points
+            // transcode while the bare parser does not; the property is stated for BOM-less UTF-8 text
+            { bool detect = false; for (size_t i = 0; i < t.size() && i < 4; ++i) if (t[i] == 0) detect = true;
+              if (t.size() >= 2 && (((unsigned char)t[0] == 0xff && (unsigned char)t[1] == 0xfe) || ((unsigned char)t[0] == 0xfe && (unsigned char)t[1] == 0xff) || ((unsigned char)t[0] == 0xef && (unsigned char)t[1] == 0xbb))) detect = true;
+              if (detect) { H.count_("json.excluded_encoding_detection_prefix"); return; } }
             H.note_distinct(hash_str(t));
             set_flight_desc("json " + hex(t).substr(0, 1500));
             check_json(t, r, thorough || c % 4 == 0);
